@@ -68,8 +68,20 @@ def run_case(ctx, i, rng):
                                  [res]):
             ctx.count('not_finished_due_to_C01_known_finding')
             return
+        # mechanism: a released task waits (through two or more future
+        # triggers) on a task that is itself held back by the limit - the
+        # limit is only extended by the largest single future offset
+        fut = any(isinstance(a[2], int) and a[2] > 0
+                  for sec in case['gt']['sections'] for ar in sec['arrows']
+                  for a in wfgen.atoms(ar['lhs']))
+        blocked = [t['id'] for t in (res.get('final_pool') or [])
+                   if t['status'] == 'waiting' and t['runahead']
+                   and t['prereqs_sat']]
+        mech = (':future-trigger-chain-beyond-limit'
+                if fut and blocked and res.get('ended_by_harness') ==
+                'stalled' else '')
         ctx.violation(
-            'C04:completable-run-did-not-finish',
+            'C04:completable-run-did-not-finish' + mech,
             f'every task completes and nothing is stuck in the model, but '
             f'the run ended {res.get("stop_reason")} '
             f'({res.get("ended_by_harness")}) with runahead limit '
